@@ -211,10 +211,10 @@ def canon(kind, reader, o):
     if not o.startswith('OK '):
         return o
     if kind == 'msg':
-        return ('OK', tuple(sorted(iu.canon_entries(o[3:]).items())))
+        return ('OK', tuple(sorted(iu.canon_entries(o[3:], drop_other=True).items())))
     if reader == 'ipm':
         head, _, end = o[3:].rpartition('|')
-        recs = [] if head == '-' else [tuple(sorted(iu.canon_entries('-' if r == '~' else r).items())) for r in head.split('/')]
+        recs = [] if head == '-' else [tuple(sorted(iu.canon_entries('-' if r == '~' else r, drop_other=True).items())) for r in head.split('/')]
         return ('OK', tuple(recs), end)
     return o
 
